@@ -76,10 +76,19 @@ def write_module(dirpath, files, modname="verifprog", gover="1.24"):
             f.write("module %s\n\ngo %s\n" % (modname, gover))
 
 
-def run_prog(path, args=(), input=None, timeout=60, env=None):
-    """-> (stdout, stderr, returncode or 'timeout')"""
+def _limit_as(gib):
+    def f():
+        import resource
+        resource.setrlimit(resource.RLIMIT_AS, (gib << 30, gib << 30))
+    return f
+
+
+def run_prog(path, args=(), input=None, timeout=60, env=None, mem_gib=None):
+    """-> (stdout, stderr, returncode or 'timeout').  mem_gib caps the address space of the child (a runaway
+    llgo-compiled program under the never-freeing `nogc` allocator must not take the machine down)."""
     try:
-        p = subprocess.run([path] + list(args), input=input, capture_output=True, text=True, timeout=timeout, env=env, errors="replace")
+        p = subprocess.run([path] + list(args), input=input, capture_output=True, text=True, timeout=timeout, env=env, errors="replace",
+                           preexec_fn=_limit_as(mem_gib) if mem_gib else None)
         return p.stdout, p.stderr, p.returncode
     except subprocess.TimeoutExpired as e:
         return (e.stdout or b"").decode("utf-8", "replace") if isinstance(e.stdout, bytes) else (e.stdout or ""), "", "timeout"
